@@ -99,7 +99,19 @@ def gen_model(rng):
             a = on_view(rng.choice(steps))
             sense = rng.choice(["<=", ">=", "=="])
             rows.append((a, sense, float(rng.randint(0, 12))))
-    return {"n1": n1, "n2": n2, "bounds": bounds, "c": c, "c0": c0, "is_max": is_max, "rows": rows, "layout": layout}
+    extreme = False
+    if layout == "vector" and rng.random() < 0.15:
+        # numeric magnitudes: tiny / huge coefficients per column, row and in the objective (judged by the exact
+        # extraction oracle only: an LP solver's tolerances make the solve differential meaningless here)
+        extreme = True
+        mags = [1e-300, 1e-12, 1e-9, 9.9e-9, 1.01e-8, 1e-7, 1.0, 1e8, 1e16]
+        col = [rng.choice(mags) if rng.random() < 0.5 else 1.0 for _ in range(n)]
+        c = [v * f for v, f in zip(c, col)]
+        rows = [([v * f * g for v, f in zip(a, col)], sn, r * g)
+                for (a, sn, r) in rows for g in [rng.choice([1.0, 1.0, 1e-9, 1e8])]]
+        c0 = c0 * rng.choice([1.0, 1e-9, 1e12])
+    return {"n1": n1, "n2": n2, "bounds": bounds, "c": c, "c0": c0, "is_max": is_max, "rows": rows, "layout": layout,
+            "extreme": extreme}
 
 
 def reference(m, method="highs"):
@@ -193,11 +205,19 @@ def write_on_single_view(rng, coeffs, x, const=0.0):
 def arr(rng, values):
     """a coefficient array in one of the dtypes a user may hold it in (same mathematical values)"""
     vals = np.asarray(values, dtype=float)
-    kinds = ["float64", "float64", "float32", "list"]
-    if np.all(vals == np.round(vals)):
-        kinds += ["int64", "int32", "int16", "int8", "pyint"]
+    kinds = ["float64", "float64", "list"]
+    with np.errstate(all="ignore"):
+        if np.all(vals.astype(np.float32).astype(np.float64) == vals):
+            kinds.append("float32")       # only values a float32 holds exactly: the model keeps the written numbers
+        if np.all(vals.astype(np.float16).astype(np.float64) == vals):
+            kinds.append("float16")
+    if np.all(np.isfinite(vals)) and np.all(vals == np.round(vals)) and np.all(np.abs(vals) < 2 ** 62):
+        kinds += ["int64", "pyint"]
+        for k_ in ("int32", "int16", "int8"):
+            if np.all(np.abs(vals) <= np.iinfo(k_).max):
+                kinds.append(k_)
         if np.all(vals >= 0):
-            kinds += ["uint8", "uint16", "uint32", "uint64", "uint8"]
+            kinds += [k_ for k_ in ("uint8", "uint16", "uint32", "uint64", "uint8") if np.all(vals <= np.iinfo(k_).max)]
     k = rng.choice(kinds)
     if k == "list":
         return np.array([float(v) for v in vals.ravel()]).reshape(vals.shape)
@@ -316,6 +336,10 @@ def build_problem(rng, m):
             v.lb, v.ub = lb, ub
     ys = [Variable(f"y{j}", lb=m["bounds"][n1 + j][0], ub=m["bounds"][n1 + j][1]) for j in range(n2)]
     styles = ["chain", "lc", "lc_right", "lc_shift", "sum", "scaled_vec", "chain", "views", "views"]
+    if m.get("extreme"):
+        # `lc_shift` writes c@(x+s) + (const − s·Σc): with coefficients of very different magnitude that is a
+        # cancellation in the WRITER's own float arithmetic, not something the extractor could be blamed for
+        styles = [st for st in styles if st != "lc_shift"]
     is_matrix = m.get("layout") == "matrix2x2"
     P = Problem()
     if m.get("layout") == "collide":
@@ -423,6 +447,73 @@ def args_text(kw):
             " bounds=" + (bounds_text(kw["bounds"]) if "bounds" in kw else "none") + " method=" + kw["method"])
 
 
+def lpdata_vs_model(m, d, names):
+    """exact (up to 1e-12 relative) comparison of the extracted LPData with the abstract model the problem was
+    written from: objective vector and constant, orientation, bounds, and the multiset of constraint rows modulo a
+    positive scaling of each row (the writing styles may scale a constraint) — independent of any solver"""
+    pos = {n: j for j, n in enumerate(names)}
+    if not set(d.variables) <= set(names) or len(set(d.variables)) != len(d.variables):
+        return f"variables {list(d.variables)} vs {names}"
+    # a variable that was never written (all its coefficients are 0 and the writer skipped the terms) is not a
+    # variable of the problem: its column must be zero in the model
+    for n_, j in pos.items():
+        if n_ not in d.variables and (m["c"][j] != 0 or any(a[j] != 0 for a, _, _ in m["rows"])):
+            return f"variable {n_} with non-zero coefficients is missing from the extracted LP"
+    perm = [pos[n] for n in d.variables]
+
+    def close(a, b, scale=1.0):
+        return abs(a - b) <= 1e-12 * max(abs(a), abs(b), scale * 1e-3, 1e-300)
+
+    c_model = [m["c"][j] for j in perm]
+    if len(d.c) != len(c_model) or not all(close(float(a), b, max(map(abs, c_model)) or 1.0) for a, b in zip(d.c, c_model)):
+        return f"c = {[float(v) for v in d.c]} vs {c_model}"
+    if not close(float(d.c0), m["c0"], 1.0) and abs(float(d.c0) - m["c0"]) > 1e-9:
+        return f"c0 = {float(d.c0)} vs {m['c0']}"
+    if (d.sense == "max") != bool(m["is_max"]):
+        return f"sense {d.sense}"
+    bm = [m["bounds"][j] for j in perm]
+    for (lb, ub), (l2, u2) in zip(d.bounds, bm):
+        if (lb is None) != (l2 is None) or (ub is None) != (u2 is None) or \
+                (lb is not None and not close(float(lb), l2, 1.0)) or (ub is not None and not close(float(ub), u2, 1.0)):
+            return f"bounds {list(d.bounds)} vs {bm}"
+
+    def norm(a, r):
+        big = max(abs(v) for v in a)
+        if big == 0:
+            return None
+        return [v / big for v in a] + [r / big]
+
+    want_ub, want_eq = [], []
+    for a, sn, r in m["rows"]:
+        a = [a[j] for j in perm]
+        if sn == "<=":
+            want_ub.append(norm(a, r))
+        elif sn == ">=":
+            want_ub.append(norm([-v for v in a], -r))
+        else:
+            want_eq.append(norm(a, r))
+    def rows_of(A, b):
+        return [] if A is None else [norm([float(v) for v in row], float(rv)) for row, rv in zip(A, b)]
+    def same_row(u, v, eq):
+        if u is None or v is None:
+            return u is None and v is None
+        if all(close(x, y, 1.0) for x, y in zip(u, v)):
+            return True
+        return eq and all(close(x, -y, 1.0) for x, y in zip(u, v))   # an equality may be written negated
+    for got, want, eq, tag in ((rows_of(d.A_ub, d.b_ub), want_ub, False, "A_ub"), (rows_of(d.A_eq, d.b_eq), want_eq, True, "A_eq")):
+        got = [g for g in got if g is not None]
+        want = [w for w in want if w is not None]
+        if len(got) != len(want):
+            return f"{tag}: {len(got)} non-trivial rows vs {len(want)}"
+        rest = list(want)
+        for g in got:
+            hit = next((k for k, w in enumerate(rest) if same_row(g, w, eq)), None)
+            if hit is None:
+                return f"{tag}: extracted row {g} is not a (scaled) row of the model"
+            rest.pop(hit)
+    return None
+
+
 def solve_one(P, method):
     with warnings.catch_warnings():
         warnings.simplefilter("ignore")
@@ -444,6 +535,24 @@ def check_model(rng, m, rep, lines, metas, methods):
         return
     for st in styles:
         rep.histogram["style:" + st] = rep.histogram.get("style:" + st, 0) + 1
+    # solver-independent oracle: what the extractor produces is, exactly, the model that was written
+    names = [v.name for v in block_elems(x)] + [y.name for y in ys]
+    try:
+        from optyx.analysis import LinearProgramExtractor
+        with warnings.catch_warnings():
+            warnings.simplefilter("ignore")
+            d0 = LinearProgramExtractor().extract(P)
+        err = lpdata_vs_model(m, d0, names)
+    except Exception as ex:  # noqa: BLE001
+        err = None if m.get("layout") == "collide" else f"extract raised {type(ex).__name__}: {ex}"[:200]
+    rep.evaluations += 1
+    if err:
+        rep.oracle_failures.append({"what": "the extracted LP is not the model that was written: " + err, "model": m,
+                                    "styles": styles})
+    if m.get("extreme"):
+        rep.histogram["extreme-magnitude models (exact extraction oracle only)"] = \
+            rep.histogram.get("extreme-magnitude models (exact extraction oracle only)", 0) + 1
+        return
     ref_status, ref_obj = reference(m)
     rep.histogram["ref:" + ref_status] = rep.histogram.get("ref:" + ref_status, 0) + 1
     if ref_status not in ("OPTIMAL", "INFEASIBLE", "UNBOUNDED"):
@@ -572,8 +681,74 @@ def run(ctx) -> core.Report:
         methods = METHODS if (thorough or i % 3 == 0) else [rng.choice(METHODS), "auto"]
         check_model(rng, m, rep, lines, metas, methods)
     compare_lean(rep, lines, metas)
+    dtype_cover(rep)
     known_matrix_sum(rep)
     return rep
+
+
+def _dtype_problem(dt, wname, k, flips, cover, A0, b0, c0v):
+    from optyx import Problem, VectorVariable
+
+    x = VectorVariable("x", 3, lb=0, ub=50)
+    A = np.array(A0).astype(dt)
+    c = np.array(c0v).astype(dt)
+    Ax = A @ x
+    lhs = {"plain": lambda: Ax, "neg": lambda: -Ax, "right4": lambda: Ax * 4, "div2": lambda: Ax / 2}.get(
+        wname, lambda: k * Ax)()
+    bk = np.array(b0) * k
+    sense = ">=" if cover else "<="        # covering: A x >= b (minimise), packing: A x <= b (maximise)
+    s_w = flip(sense) if flips else sense
+    obj = c @ x if wname in ("plain", "right4", "div2") else ((k * (c @ x)) if abs(k) != 1 else -(c @ x))
+    ksign = 1.0 if wname in ("plain", "right4", "div2") else float(k)
+    is_max = (not cover) if ksign > 0 else cover
+    P = Problem()
+    (P.maximize if is_max else P.minimize)(obj)
+    P.subject_to((lhs <= bk) if s_w == "<=" else (lhs >= bk))
+    m = {"n1": 3, "n2": 0, "bounds": [(0.0, 50.0)] * 3, "c": [v * ksign for v in c0v], "c0": 0.0,
+         "is_max": is_max, "rows": [(a, sense, r) for a, r in zip(A0, b0)], "layout": "vector",
+         "extreme": False, "dtype_cover": [dt, wname, cover]}
+    return P, x, m
+
+
+def dtype_cover(rep):
+    """numeric types × scalar wrappers, enumerated (not sampled): covering / packing LPs whose constraint matrix and
+    cost vector are held in every integer / float dtype that represents them exactly, written as A@x, −(A@x), k·(A@x),
+    (A@x)·k, (A@x)/k and c@x, k·(c@x), −(c@x) with k chosen so that k·A overflows the narrow dtypes.  Judged by
+    the exact extraction oracle and by the solve differential."""
+    from optyx.analysis import LinearProgramExtractor
+
+    A0 = [[1.0, 2.0, 0.0], [3.0, 0.0, 1.0], [0.0, 1.0, 70.0]]
+    b0 = [4.0, 6.0, 80.0]
+    c0v = [2.0, 3.0, 100.0]
+    dts = ["uint8", "int8", "uint16", "int16", "uint32", "int32", "uint64", "int64", "float16", "float32", "float64"]
+    wraps = [("plain", 1, False), ("neg", -1, True), ("k2", 2, False), ("k50", 50, False), ("k1000", 1000, False),
+             ("k70000", 70000, False), ("kneg3", -3, True), ("right4", 4, False), ("div2", 0.5, False)]
+    for dt in dts:
+        for wname, k, flips in wraps:
+            for cover in (True, False):
+                rep.evaluations += 1
+                rep.histogram["dtype-cover"] = rep.histogram.get("dtype-cover", 0) + 1
+                try:
+                    with warnings.catch_warnings():
+                        warnings.simplefilter("ignore")
+                        P, x, m = _dtype_problem(dt, wname, k, flips, cover, A0, b0, c0v)
+                        d = LinearProgramExtractor().extract(P)
+                        err = lpdata_vs_model(m, d, [v.name for v in x])
+                        s = P.solve(method="highs")
+                except Exception as ex:  # noqa: BLE001
+                    rep.oracle_failures.append({"what": f"dtype cover: {type(ex).__name__}: {ex}"[:300],
+                                                "dtype_cover": [dt, wname, cover]})
+                    continue
+                if err:
+                    rep.oracle_failures.append({"what": "dtype cover: the extracted LP is not the model that was written: " + err,
+                                                "model": m})
+                    continue
+                rs, ro = reference(m)
+                if not (s.status.name == rs and (rs != "OPTIMAL" or close_obj(s.objective_value, ro))):
+                    rep.oracle_failures.append({"what": "dtype cover: optyx and the independently assembled LP disagree",
+                                                "model": m, "optyx": [s.status.name, s.objective_value], "reference": [rs, ro]})
+                else:
+                    rep.nontrivial.add(("dtype", dt, wname, cover))
 
 
 def known_matrix_sum(rep):
@@ -611,6 +786,13 @@ def search(ctx, rep):
 
 def replay(payload) -> bool:
     f = payload["failure"]
+    if "dtype_cover" in f or "dtype_cover" in f.get("model", {}):
+        rep = core.Report()
+        dtype_cover(rep)          # the family is enumerated, not sampled: re-run it
+        if rep.oracle_failures:
+            print(rep.oracle_failures[0])
+            return False
+        return True
     m = f["model"]
     m["rows"] = [(list(a), s, float(r)) for a, s, r in m["rows"]]
     m["bounds"] = [tuple(b) for b in m["bounds"]]
